@@ -375,6 +375,52 @@ fn framing_case(u: &mut Choices, sz: Size) -> CaseResult {
 }
 
 // ------------------------------------------------------------------------------------------------
+// stage: several test files for one rules file, good and bad ones in every order
+
+const SPEC_KINDS: [(&str, &str); 7] = [
+    ("good", "- name: g\n  input: {a: 1}\n  expectations:\n    rules:\n      r: PASS\n"),
+    ("mismatch", "- name: m\n  input: {a: 2}\n  expectations:\n    rules:\n      r: PASS\n"),
+    ("truncated", "- name: t\n  input: {a: 1\n  expectations: [\n"),
+    ("not-a-list", "name: x\ninput: {a: 1}\n"),
+    ("empty", ""),
+    ("unknown-status", "- name: u\n  input: {a: 1}\n  expectations:\n    rules:\n      r: MAYBE\n"),
+    ("no-input", "- name: n\n  expectations:\n    rules:\n      r: PASS\n"),
+];
+
+fn specs_case(i: usize) -> CaseResult {
+    // i -> (kind of file a, kind of file b, kind of file c or none, format)
+    let k = SPEC_KINDS.len();
+    let fmts = [Fmt::Single, Fmt::Json, Fmt::Yaml, Fmt::Junit];
+    let fmt = fmts[i % 4];
+    let mut j = i / 4;
+    let a = j % k;
+    j /= k;
+    let b = j % k;
+    j /= k;
+    let c = j % (k + 1);
+    let dir = fresh_dir("c08t");
+    let rp = dir.join("r.guard");
+    write_file(&rp, "rule r {\n  a == 1\n}\n");
+    let mut kinds = vec![SPEC_KINDS[a].0, SPEC_KINDS[b].0];
+    write_file(&dir.join("tests/r_a_tests.yaml"), SPEC_KINDS[a].1);
+    write_file(&dir.join("tests/r_b_tests.yaml"), SPEC_KINDS[b].1);
+    if c < k {
+        write_file(&dir.join("tests/r_c_tests.yaml"), SPEC_KINDS[c].1);
+        kinds.push(SPEC_KINDS[c].0);
+    }
+    let case = json!({"kind": "specs", "index": i, "files": kinds, "format": fmt.flag()});
+    let o = TOpts { fmt, verbose: false, alphabetical: i % 2 == 0, last_modified: false };
+    let mut n = 0;
+    for (what, r) in [("test -r -t <directory>", test_files(&rp.to_string_lossy(), &dir.join("tests").to_string_lossy(), &o)), ("test --dir", test_dir(&dir.to_string_lossy(), &TOpts { alphabetical: false, ..o.clone() }))] {
+        n += 1;
+        if let Some(p) = &r.panic {
+            return CaseResult::Fail(Failure { msg: format!("{} -o {} with test files {:?}: panic {}", what, fmt.flag(), kinds, p), sig: site(p), case });
+        }
+    }
+    CaseResult::Pass(Info { nontrivial: kinds.iter().any(|x| *x != "good"), key: hash_case(&[&format!("{:?}{}", kinds, fmt.flag())]), classes: vec![format!("specs:{}", fmt.flag())], evals: n, sample: if i % 211 == 0 { Some(case) } else { None } })
+}
+
+// ------------------------------------------------------------------------------------------------
 // stage: raw text (every file role gets arbitrary text)
 
 fn raw_case(u: &mut Choices) -> CaseResult {
@@ -539,6 +585,9 @@ fn process_case(i: usize) -> CaseResult {
 }
 
 pub fn replay(case: &J) -> CaseResult {
+    if case["kind"] == "specs" {
+        return specs_case(case["index"].as_u64().unwrap_or(0) as usize);
+    }
     if case["kind"] == "framing" {
         let (a, b) = (parses(case["rules"].as_str().unwrap_or("")), parses(case["framed"].as_str().unwrap_or("")));
         return if a == b { CaseResult::Pass(Info::default()) } else { CaseResult::Fail(Failure { msg: format!("the rules text is accepted={} but framed by comments accepted={}", a, b), sig: "c08:comment-framing-changes-acceptance".into(), case: case.clone() }) };
@@ -560,7 +609,7 @@ pub fn replay(case: &J) -> CaseResult {
 
 pub fn run(tier: Tier, seed: u64) -> i32 {
     let spec = EvidenceSpec {
-        rule: "Stage 'framing': generated rule texts (valid, with a malformed tail, mutated, with a stray leading token) are accepted or rejected by the parser alike with and without a comment header of 1-60 lines and / or trailing comments. Stage 'ill-typed': 53 parser-accepted but ill-typed program shapes (filters after this / an index / another filter, map-key filters, unary checks on literal variables, function arguments of the wrong type or from empty selections, look-around / back-reference regexes, huge and negative indices, interpolation of non-strings, wrong arity, unknown rules and functions, reversed ranges) x 31 awkward documents (scalars and lists at the root, CloudFormation- and Terraform-plan-shaped documents that are slightly wrong, multi-byte text around byte 100 in malformed data, comment-only, multi-document, tags, aliases, complex keys, overflowing numbers, BOM, tabs). Stage 'mutants': generated wide programs and documents with 1-3 token/byte mutations (truncate, delete, duplicate, swap, splice, dictionary insert, bracket/quote flip, nesting up to 48). Stage 'raw': token soup for every file role. Each input goes through run_checks (verbose and not), parse-tree (json, yaml), validate --payload in six output modes, and for a share also -r/-d files, stdin data, -i, and `test` in three formats (the data text doubling as spec and parameter file): any panic is a violation; a rules text rejected by parse-tree must make validate exit 5 with `line .. column ..` and no evaluated rule. Stage 'process': recursion, 48-64-deep nesting and rulegen / payload edge cases through the real binary: the process must terminate normally. Non-trivial: the rules text is accepted by the parser or within 3 edits of an accepted one; distinct by hash of the texts.".into(),
+        rule: "Stage 'test-specs': every combination of 2-3 test files of 7 kinds (good, mismatching, truncated, not a list, empty, unknown status word, without input) for one rules file x 4 output formats, through `test -r -t <directory>` and `test --dir`. Stage 'framing': generated rule texts (valid, with a malformed tail, mutated, with a stray leading token) are accepted or rejected by the parser alike with and without a comment header of 1-60 lines and / or trailing comments. Stage 'ill-typed': 53 parser-accepted but ill-typed program shapes (filters after this / an index / another filter, map-key filters, unary checks on literal variables, function arguments of the wrong type or from empty selections, look-around / back-reference regexes, huge and negative indices, interpolation of non-strings, wrong arity, unknown rules and functions, reversed ranges) x 31 awkward documents (scalars and lists at the root, CloudFormation- and Terraform-plan-shaped documents that are slightly wrong, multi-byte text around byte 100 in malformed data, comment-only, multi-document, tags, aliases, complex keys, overflowing numbers, BOM, tabs). Stage 'mutants': generated wide programs and documents with 1-3 token/byte mutations (truncate, delete, duplicate, swap, splice, dictionary insert, bracket/quote flip, nesting up to 48). Stage 'raw': token soup for every file role. Each input goes through run_checks (verbose and not), parse-tree (json, yaml), validate --payload in six output modes, and for a share also -r/-d files, stdin data, -i, and `test` in three formats (the data text doubling as spec and parameter file): any panic is a violation; a rules text rejected by parse-tree must make validate exit 5 with `line .. column ..` and no evaluated rule. Stage 'process': recursion, 48-64-deep nesting and rulegen / payload edge cases through the real binary: the process must terminate normally. Non-trivial: the rules text is accepted by the parser or within 3 edits of an accepted one; distinct by hash of the texts.".into(),
         assumptions: vec!["nesting depth is bounded by 64 as the statement allows".into(), "in-process calls are wrapped in catch_unwind; inputs that may exhaust the stack (recursion, deep nesting) go through the real binary".into()],
     };
     execute("C08", tier, seed, spec, &replay, &|run: &Session| {
@@ -569,6 +618,7 @@ pub fn run(tier: Tier, seed: u64) -> i32 {
         run.run_enum("process", process_inputs().len(), process_case);
         run.run_enum("ill-typed", ILL_TYPED.len() * awkward_docs().len(), ill_typed_case);
         run.run_random("mutants", tier.pick(12_000, 400_000), tier.pick(2000, 3000), |u| mutant_case(u, sz));
+        run.run_enum("test-specs", SPEC_KINDS.len() * SPEC_KINDS.len() * (SPEC_KINDS.len() + 1) * 4, specs_case);
         run.run_random("framing", tier.pick(8_000, 200_000), tier.pick(1400, 2600), |u| framing_case(u, sz));
         run.run_random("raw", tier.pick(6_000, 200_000), 200, raw_case);
         let wd = run.stats.lock().unwrap().discards.get("watchdog").copied().unwrap_or(0);
